@@ -328,3 +328,70 @@ def run_faults(ctx, want=("cap", "io", "short")):
             elif not _same_log(mlog, log):
                 ctx.disagree("ape file programs: sequence of file-object calls", case, model=",".join(mlog)[:300], impl=",".join(log)[:300])
     return len(jobs)
+
+
+# ---------------------------------------------------------------------------------------------------------------------
+# C06, load: `APEv2(fileobj)` as the program `apeLoadM` (Model/Container/ApeFileLoadM.lean, driver `apef op=loadm`)
+
+def run_load_faults(ctx):
+    """the layouts of gen_file x (an IOError at every call index) x (short reads 0 / 1 / n//2 / n-1 at every read): APEv2(fileobj) on
+    FaultFile vs the Lean program - outcome class (loaded / MutagenError / other), sequence of file-object calls, file untouched,
+    object not closed.  Returns the number of compared runs."""
+    from fobj import FaultFile
+    from mutagen import MutagenError
+    from mutagen.apev2 import APEv2
+    rng = ctx.rng
+    jobs = []
+    seen = set()
+
+    def violation(key, what, case, li):
+        if (key, li) not in seen:
+            seen.add((key, li)); ctx.violation(key, what, case)
+
+    for li in range(ctx.budget(80, 700)):
+        data, kind, alen = gen_file(rng)
+        ref = FaultFile(data)
+        k0, r0 = timed(lambda: APEv2(ref), 20)
+        ncalls = ref.calls; ref_log = list(ref.log)
+        plans = [("none", None, None)] + [("io", i, "io") for i in range(ncalls)]
+        for i, l in enumerate(ref_log):
+            if l.startswith("r") and l[1:].isdigit() and int(l[1:]) > 0:
+                for kk in sorted({0, 1, int(l[1:]) // 2, int(l[1:]) - 1}):
+                    if kk < int(l[1:]):
+                        plans.append(("short", i, kk))
+        for fk, a, b in plans:
+            f = FaultFile(data, fail_at=a) if fk == "io" else (FaultFile(data, short=(a, b)) if fk == "short" else FaultFile(data))
+            env = " fail=%d:io" % a if fk == "io" else (" short=%d:%d" % (a, b) if fk == "short" else "")
+            k, r = timed(lambda: APEv2(f), 20)
+            case = {"layout": kind, "op": "load", "fault": fk, "at": a, "arg": b, "data": hx(data) if len(data) < 1200 else "len=%d" % len(data)}
+            if k == "hang":
+                violation("apefile:load:hang", "did not finish", case, li); continue
+            st = "ok" if k == "ok" else ("err:mutagen" if isinstance(r, MutagenError) else classify(r).replace("err ", "err:"))
+            ctx.case(key=("apefile-load", li, fk, a, b), nontrivial=(fk != "none"), modelled=True)
+            ctx.hist["apefile-load:%s:%s" % (fk, st)] += 1
+            jobs.append(("apef op=loadm data=%s%s" % (hx(data), env), st, list(f.log), case, k == "ok"))
+            if f.getvalue() != data:
+                violation("apefile:load:file-modified", "load changed the file", case, li)
+            if f.closed_called:
+                violation("apefile:load:closes-caller-file", "close() was called on the caller's file object", case, li)
+            if st.startswith("err:") and st != "err:mutagen":
+                key = "escape:ValueError:_util.py:verify_fileobj" if (st == "err:value" and str(r).startswith("Can't ")) else \
+                    "escape:%s:apefile:load" % type(r).__name__
+                violation(key, "%s escaped from APEv2() (%s at %s): %s" % (type(r).__name__, fk, a, str(r)[:80]), case, li)
+            if fk != "none" and k0 == "ok" and k == "ok" and dict(r0) != dict(r):
+                violation("undetected:%s:%s" % (fk, f.fault_site), "load returned normally after the fault with other tags than the clean run", case, li)
+    if ctx.model_ok() and jobs:
+        answers = ctx.driver.ask([j[0] for j in jobs])
+        for (line, st, log, case, loaded), ans in zip(jobs, answers):
+            ctx.traces_validated += 1
+            mst, mf = parse_fields(ans)
+            mlog = [] if mf.get("log", "-") == "-" else mf["log"].split(",")
+            # the model stops where the bytes have been read; `__parse_tag` on them (APEBadItemError = MutagenError) is not part of it
+            ok = (mst == st) or (mst == "ok" and st == "err:mutagen")
+            if mst == "ok" and st == "err:mutagen":
+                ctx.hist["apefile-load:item-parser-raised"] += 1
+            if not ok:
+                ctx.disagree("ape load under faults", case, model=ans[:200], impl=st)
+            elif not _same_log(mlog, log):
+                ctx.disagree("ape load: sequence of file-object calls", case, model=",".join(mlog)[:300], impl=",".join(log)[:300])
+    return len(jobs)
